@@ -97,6 +97,12 @@ def run(ctx):
     bad = [x for x in pw if not (x[0] == w.sm.params[0] and len(x[1]) == 2 and x[1][0] == ("sub", C("signatures")))]
     ctx.ob("R2", "sign-signable|write-set", ssite.loc(), "interprocedural write set of sign_signable %s" % ("is exactly signable['signatures'][<its key>]" if not bad and pw else "contains more than the signer's own entry: " + "; ".join("%s%s" % (x[0], x[1]) for x in bad)[:200]), not bad and bool(pw))
 
+    # the bytes signed are a faithful image of the JSON value only under the published serializer
+    # configuration (C07-R1, re-evaluated here)
+    from .c07 import serializer_config
+
+    serializer_config(ctx.sub("DEP-C07"))
+
     # ---- R3 agreement + exact gate
     agreement(ctx, "R3")
     m = VSModel(eng)
